@@ -32,6 +32,7 @@ def plan(tier, seed):
     q = tier == "quick"
     specs = [{"kind": "verify", "count": 12 if q else 100} for _ in range(6 if q else 14)]
     specs.append({"kind": "sign_artifacts", "count": 1 if q else 6})
+    specs.append({"kind": "status_sweep", "upto": 560 if q else 2100})
     specs.append({"kind": "gpg_sign", "shim": True, "count": 1 if q else 5})
     return specs
 
@@ -473,7 +474,56 @@ def run_gpg_sign(spec, rec, lib):
         home.__exit__(None, None, None)
 
 
+def run_status_sweep(spec, rec, lib):
+    """exit statuses are 8 bits wide: whatever a rejection's status encodes, it must not come out as 0.  Rejections whose
+    *size* varies (threshold T, g good signatures, for every T up to a few hundred) are run through the command-line function
+    in-process; a returned status whose low 8 bits are 0 is then confirmed with a real process before it is reported."""
+    rng = random.Random(spec["seed"])
+    d = spec["scratch"]
+    eps = entry_points(lib.repo, d)
+    U = [gkeys.key(i) for i in range(4)]
+    tp, up = os.path.join(d, "sw-t.json"), os.path.join(d, "sw-u.json")
+    for T in range(1, spec["upto"]):
+        for g in (0, 1):
+            for kind in ("root", "key_mgr"):
+                if kind == "root":
+                    trusted = gmd.envelope(gmd.root_md(1, U[:2], T, [U[2]], 1))
+                    off = gmd.envelope(gmd.root_md(2, U[:2], 1, [U[2]], 1))
+                    gmd.sign_env(off, U[:g], True, rng)
+                else:
+                    trusted = gmd.envelope(gmd.root_md(1, U[:1], 1, U[1:3], T))
+                    off = gmd.envelope(gmd.delegating("key_mgr", {"pkg_mgr": gmd.delegation([U[3]], 1)}, version=2))
+                    gmd.sign_env(off, U[1:1 + g], False, rng)
+                if T <= g:
+                    continue
+                write(tp, obj=trusted)
+                write(up, obj=off)
+                acc, why = inprocess_verdict(lib, tp, up)
+                if acc:
+                    continue
+                try:
+                    o = boundary.call(lib, lib.cli.cli, ["verify-metadata", tp, up])
+                    ret = o.value if o.accepted else 1
+                except SystemExit as e:
+                    ret = e.code
+                status = 0 if ret is None else ((ret & 0xFF) if isinstance(ret, int) and not isinstance(ret, bool) else 1)
+                rec.case("sweep|%s|%d|%d" % (kind, T, g), nontrivial=T in (1, 2, 246, 236, 256))
+                rec.count("status_sweep_rejections")
+                if status == 0:
+                    real = [run_proc(cmd + ["verify-metadata", tp, up], lib.repo)[0] for _n, cmd in eps[:2]]
+                    rec.count("status_sweep_confirmations")
+                    if any(r == 0 for r in real):
+                        rec.violation("exit-status/%s/zero-on-reject/status-wraps" % eps[0][0],
+                                      "library rejects (%s; threshold %d, %d good signature(s)); the command-line function returned %r and the "
+                                      "process exits with status 0" % (why, T, g, ret),
+                                      {"kind": "verify", "entry": eps[0][0], "label": "sweep:%s:T=%d:g=%d" % (kind, T, g),
+                                       "trusted": json.dumps(trusted), "untrusted": json.dumps(off)})
+                        return
+
+
 def run_shard(spec, rec, lib):
+    if spec["kind"] == "status_sweep":
+        return run_status_sweep(spec, rec, lib)
     {"verify": run_verify, "sign_artifacts": run_sign_artifacts, "gpg_sign": run_gpg_sign}[spec["kind"]](spec, rec, lib)
 
 
